@@ -17,6 +17,10 @@ func (ex *Exec) doCall(st *State, fr *Frame, c *ssa.CallCommon, dst ssa.Value, p
 	}
 	fnv := ex.val(st, fr, c.Value)
 	ex.curCallArgs = args
+	ex.curCallTypes = nil
+	for _, a := range c.Args {
+		ex.curCallTypes = append(ex.curCallTypes, a.Type())
+	}
 	ex.curCallRecv = nil
 	if c.IsInvoke() {
 		ex.curCallRecv = fnv
@@ -58,7 +62,7 @@ func (ex *Exec) ghostSets(st *State, fr *Frame, c *ssa.CallCommon, when string) 
 	fr.CallCount[callee]++
 	var before, after []*GhostSet
 	for _, gs := range sp.GhostSets {
-		if gs.Callee == callee && gs.Ord == fr.CallCount[callee] {
+		if gs.Callee == callee && (gs.Ord == 0 || gs.Ord == fr.CallCount[callee]) {
 			if gs.When == "before" {
 				before = append(before, gs)
 			} else {
@@ -82,7 +86,11 @@ func (ex *Exec) runGhostSetsRes(st *State, fr *Frame, sets []*GhostSet, sig *typ
 			env.bindResults(sig, res)
 		}
 		for i, a := range ex.curCallArgs {
-			env.vars[fmt.Sprintf("arg%d", i)] = TV{a, nil}
+			var at types.Type
+			if i < len(ex.curCallTypes) {
+				at = ex.curCallTypes[i]
+			}
+			env.vars[fmt.Sprintf("arg%d", i)] = TV{a, at}
 		}
 		if ex.curCallRecv != nil {
 			env.vars["recv"] = TV{ex.curCallRecv, nil}
@@ -236,6 +244,36 @@ func isGhostClass(class string) bool { return strings.Contains(class, "$") }
 // through declared events, except at calls of repository code without any contract (ghostToo).
 func (ex *Exec) havocAll(st *State, repoToo bool, ghostToo ...bool) {
 	gh := len(ghostToo) > 0 && ghostToo[0]
+	// named locals living on the heap are out of reach of the callee unless they escaped to it
+	before := map[string]*Term{}
+	for _, lc := range st.LocalCells {
+		esc := false
+		for _, e := range st.Escaped {
+			if e == lc.Class {
+				esc = true
+			}
+		}
+		if esc {
+			continue
+		}
+		for class, h := range st.Heap {
+			if class == lc.Class || strings.HasPrefix(class, lc.Class+"@") || strings.HasPrefix(class, lc.Class+".") {
+				before[class] = h
+			}
+		}
+	}
+	defer func() {
+		for _, lc := range st.LocalCells {
+			for class, oldH := range before {
+				if class == lc.Class || strings.HasPrefix(class, lc.Class+"@") || strings.HasPrefix(class, lc.Class+".") {
+					cur := st.heapGet(class, oldH.Sort)
+					if cur != oldH && oldH.Sort.Kind == KArr && oldH.Sort.Idx == SInt {
+						st.Heap[class] = Store(cur, lc.Ref, Select(oldH, lc.Ref))
+					}
+				}
+			}
+		}
+	}()
 	for class := range st.Heap {
 		if ex.preserved(class) {
 			continue
@@ -430,6 +468,10 @@ func (ex *Exec) applyContract(st *State, fr *Frame, sp *FuncSpec, fn *ssa.Functi
 			t = Implies(Not(ex.evalBool(env2, k.Expr)), t)
 		}
 		st.assume(t)
+	}
+	for _, c := range sp.Defines {
+		st.assume(ex.evalBool(env2, c.Expr))
+		ex.Assumed[sp.Name+" defines "+c.Text] = true
 	}
 	return res
 }
